@@ -46,11 +46,31 @@ def run(prog, rep, tier):
     pushes = [b for b in body.calls() if (b.term.cmethod == 'push' and 'Vec::<u64>' in b.term.cargs) or
               (b.term.cmethod == 'insert' and ('HashSet::<u64' in b.term.cargs or 'BTreeSet::<u64' in b.term.cargs))]
     contains = [b for b in body.calls() if b.term.cmethod == 'contains' and 'u64' in b.term.cargs]
-    rep.floor('R02.2', len(pushes), 1, 'done-marking pushes')
+    # ... among the u64 collections of the function, the done list is the one the clean-up asks whether to leave a file alone: a `contains` after the block
+    # loop with one outcome that reaches the clean-up's end_file and one that does not (other id collections -- statistics, ordering -- are not it)
+    U64SETS = ('std::vec::Vec<u64', 'std::collections::HashSet<u64', 'std::collections::BTreeSet<u64')
+    ends_ = [b for b in body.calls() if cnorm(b.term) == 'ArchiveWriter::end_file' and b.idx in loop and fb.idx not in body.reachable(b.idx)]
     done_vecs = set()
-    for pb in pushes:
-        o = origins(body, [pb.term.args[0].place[0]], through_calls=False)
-        done_vecs |= {l for l in o.locals if body.lty(l).startswith(('std::vec::Vec<u64', 'std::collections::HashSet<u64', 'std::collections::BTreeSet<u64'))}
+    for cb_ in contains:
+        if fb.idx in body.reachable(cb_.idx) or not ends_:
+            continue
+        r_ = next((x for x in (branch_on_call(prog, body, bl.idx) for bl in body.blocks) if x and x[0] == cb_.idx), None)
+        if r_ is None:
+            continue
+        heads_ = [b.idx for b in body.calls() if b.term.cmethod == 'next' and b.idx in loop and fb.idx not in body.reachable(b.idx)]
+        reach_t = body.reachable(r_[2], removed_blocks=heads_)
+        reach_f = body.reachable(r_[3], removed_blocks=heads_)
+        if any(e.idx in reach_f for e in ends_) and not any(e.idx in reach_t for e in ends_):
+            o = origins(body, [cb_.term.args[0].place[0]], through_calls=True)
+            done_vecs |= {l for l in o.locals if body.lty(l).startswith(U64SETS)}
+    if done_vecs:
+        pushes = [pb for pb in pushes if origins(body, [pb.term.args[0].place[0]], through_calls=False).locals & done_vecs]
+    else:
+        # (no such test in the clean-up: every u64 collection that is filled is taken for a done list, as R02.3 will report the missing guard)
+        for pb in pushes:
+            o = origins(body, [pb.term.args[0].place[0]], through_calls=False)
+            done_vecs |= {l for l in o.locals if body.lty(l).startswith(U64SETS)}
+    rep.floor('R02.2', len(pushes), 1, 'done-marking pushes')
     fin = [b for b in body.calls() if b.term.cmethod == 'finalize' and 'sha2' in b.term.cargs]
     cmp_ok = None
     for bl in body.blocks:
@@ -229,6 +249,25 @@ def run(prog, rep, tier):
         ok = ok and not any(bb in r for bb, _ in oks)
     rep.ob('R02.4', bool(ok), 'R02.4|%s|unfinished-files-reported' % body.nkey, 'a non-empty unfinished list always replaces the status by UnfinishedFiles before Ok is returned' if ok else
            'repair can return a status other than UnfinishedFiles although some files were closed incomplete', body.loc())
+    # ... and the list names *every* file the clean-up closed: on each path from the clean-up's end_file back to the next element, the name is pushed onto the
+    # vector that the UnfinishedFiles status carries (no further condition -- "known to be damaged" -- decides whether a file closed incomplete is reported)
+    if len(unf) == 1 and len(cleanup) == 1:
+        s_ = body.blocks[unf[0][0]].stmts[unf[0][1]]
+        vlocals = set()
+        for op in s_.rv.ops:
+            if op.place is not None:
+                vlocals |= {l for l in origins(body, [op.place[0]], through_calls=False).locals if body.lty(l).startswith('std::vec::Vec<')}
+        pushes = [b.idx for b in body.calls() if b.term.cmethod in ('push', 'insert', 'extend', 'push_back') and b.term.args and b.term.args[0].place is not None and
+                  origins(body, [b.term.args[0].place[0]], through_calls=False).locals & vlocals]
+        e2_ = cleanup[0]
+        heads = [b for b in body.calls() if b.term.cmethod == 'next' and b.idx in loop and fb.idx not in body.reachable(b.idx) and e2_.idx in body.reachable(b.idx)]
+        okn = bool(vlocals) and bool(pushes) and len(heads) == 1
+        if okn:
+            # leaving through the error of end_file (`?`) is not "going on": only the way back to the loop head counts
+            r_ = reachable_vs(body, e2_.idx, removed_blocks=pushes) if False else body.reachable(e2_.term.target, removed_blocks=pushes)
+            okn = heads[0].idx not in r_
+        rep.ob('R02.4', okn, 'R02.4|%s|every-closed-file-is-named' % body.nkey, 'every file ended by the clean-up is pushed onto the list UnfinishedFiles carries' if okn else
+               'the clean-up can end a file that was not completed without naming it in UnfinishedFiles: a file missing its end is then presented as recovered in full', body.loc(e2_.idx))
 
     r02_5(prog, rep)
     r02_6(prog, rep)
